@@ -40,14 +40,20 @@ def world_labels(name, feats):
     """labels present in a world's contract files (cheap: no Verus)"""
     w = World(name, feats)
     labs = set()
-    from .assemble import LABEL_RE
+    from .assemble import labels_in
     for c in w.vc.fns.values():
-        for txt in [c.ensures] + [l['text'] for l in c.loops.values()] + [h[2] for h in c.hints]:
-            for m in LABEL_RE.finditer(txt):
-                labs.add(m.group(1))
+        for txt in [c.ensures] + [l['text'] for l in c.loops.values()] + [h[2] for h in c.hints] + list(c.closures.values()):
+            labs.update(labels_in(txt))
     for _, text, _ in w.vc.raws:
-        for m in LABEL_RE.finditer(text):
-            labs.add(m.group(1))
+        labs.update(labels_in(text))
+    for sp in w.cfg.get('spec', []):
+        for f in sp['files']:
+            f = f['file'] if isinstance(f, dict) else f
+            labs.update(labels_in(open(os.path.join(w.dir, f)).read()))
+    if 'type_urls' in w.cfg:
+        labs.add(w.cfg['type_urls'].get('label', 'C20') + '.type-urls')
+    for pf in w.vc.protofields:
+        labs.add(pf['prop'] + '.fields')
     return labs, w
 
 
@@ -146,16 +152,34 @@ def check(pid, tier='quick', seed=0, shared=None, write_evidence=True, quiet=Fal
         trusted.update(scan_trusted(unit_text))
         for k, v in meta['counters'].items():
             counters[k] = counters.get(k, 0) + v
+        # functions degraded to their assumed contract (lost anchor / no longer in the verified subset)
+        degraded = meta.get('degraded', {})
+        deg_dependents = set()
+        if degraded:
+            names = {k.split('::')[-1] for k in degraded}
+            for fn in meta['fns']:
+                fqn = f'{fn["mod"]}::{fn["name"]}'
+                if fqn in degraded:
+                    deg_dependents.add(fqn)
+                    continue
+                try:
+                    body = open(os.path.join(REPO, fn['file']), 'rb').read()[fn['src_span'][0]:fn['src_span'][1]].decode('utf-8', 'ignore')
+                except Exception:
+                    body = ''
+                if any(re.search(r'\b' + re.escape(n) + r'\b', body) for n in names):
+                    deg_dependents.add(fqn)
         for st in meta.get('stubs', []):
             unverified.add(f"{st['mod']}::{st['name']} ({st['file']}) – contract assumed, pinned to body {st['pin']}")
         # --- labelled lemmas (proof fns in spec / raw text): an obligation each
-        lemma_names = set(mm.group(2) for mm in re.finditer(r'//\s*\[(C\d\d\.[A-Za-z0-9_.\-]+)\][^\n]*\n(?:\s*(?:///[^\n]*|#\[[^\n]*\])\n)*\s*(?:pub\s+)?(?:broadcast\s+)?proof fn\s+(\w+)', unit_text))
+        lemma_names = set(mm.group(2) for mm in re.finditer(r'//((?:\s*\[C\d\d\.[A-Za-z0-9_.\-]+\])+)[^\n]*\n(?:\s*(?:///[^\n]*|#\[[^\n]*\])\n)*\s*(?:pub\s+)?(?:broadcast\s+)?proof fn\s+(\w+)', unit_text))
         lemma_fail = {}
         lemma_viol = []
-        for ml in re.finditer(r'//\s*\[(C\d\d\.[A-Za-z0-9_.\-]+)\][^\n]*\n(?:\s*(?:///[^\n]*|#\[[^\n]*\])\n)*\s*(?:pub\s+)?(?:broadcast\s+)?proof fn\s+(\w+)', unit_text):
-            lab, fname = ml.group(1), ml.group(2)
-            if label_prop(lab) != pid:
+        for ml in re.finditer(r'//((?:\s*\[C\d\d\.[A-Za-z0-9_.\-]+\])+)[^\n]*\n(?:\s*(?:///[^\n]*|#\[[^\n]*\])\n)*\s*(?:pub\s+)?(?:broadcast\s+)?proof fn\s+(\w+)', unit_text):
+            fname = ml.group(2)
+            mine_l = [x for x in re.findall(r'\[(C\d\d\.[A-Za-z0-9_.\-]+)\]', ml.group(1)) if label_prop(x) == pid]
+            if not mine_l:
                 continue
+            lab = mine_l[0]
             hits = [v for k, v in cm['times'].items() if k.split('::')[-1] == fname]
             ok = len(hits) == 1 and hits[0].get('success') is True
             if len(hits) != 1:
@@ -223,6 +247,12 @@ def check(pid, tier='quick', seed=0, shared=None, write_evidence=True, quiet=Fal
                         hit = fn
             rl_fns.add((hit['mod'], hit['name']) if hit else None)
         for fn in meta['fns']:
+            fq0 = f'{fn["mod"]}::{fn["name"]}'
+            if fq0 in degraded:
+                labs0 = [L['label'] for L in fn['labels']]
+                if pid == NOPANIC_PROP or any(label_prop(l) == pid for l in labs0):
+                    inconclusive.append(f'{wname}: {fq0} is undecided: {degraded[fq0][:300]}')
+                continue
             if fn['external_body'] or fn['variant'] == 'stub':
                 continue
             key = (fn['mod'], fn['name'], fn['variant'], fn.get('probe'))
@@ -241,6 +271,10 @@ def check(pid, tier='quick', seed=0, shared=None, write_evidence=True, quiet=Fal
             labs = [L['label'] for L in fn['labels']] + [L['label'] for L in fn.get('inner_labels', [])]
             mine = [l for l in labs if label_prop(l) == pid]
             nopanic = (pid == NOPANIC_PROP)
+            if fq in deg_dependents and (mine or nopanic):
+                why = degraded.get(fq) or ('depends on ' + ', '.join(sorted(degraded)))
+                inconclusive.append(f'{wname}: {fq} is undecided: {why[:300]}')
+                continue
             if not mine and not nopanic:
                 # failures here belong to other properties, except unlabelled contract clauses
                 for f in fl:
@@ -272,7 +306,8 @@ def check(pid, tier='quick', seed=0, shared=None, write_evidence=True, quiet=Fal
                             failed_labels.setdefault(fl_, []).append(f)
                 else:
                     if f['label'] is not None:
-                        failed_labels.setdefault(f['label'], []).append(f)
+                        for fl_ in f.get('labels') or [f['label']]:
+                            failed_labels.setdefault(fl_, []).append(f)
                     else:
                         body_fail.append(f)
             for l in mine:
@@ -296,6 +331,14 @@ def check(pid, tier='quick', seed=0, shared=None, write_evidence=True, quiet=Fal
     wall = time.time() - t0
     # ---------------------------------------------------------------- known findings
     reported = []
+    seen_v = set()
+    uniq = []
+    for v in violations:
+        if v['label'] in seen_v:
+            continue
+        seen_v.add(v['label'])
+        uniq.append(v)
+    violations = uniq
     for v in violations:
         kf = next((k for k in open_findings if k.get('obligation') == v['label'] and not k.get('probe')), None)
         if kf:
